@@ -40,8 +40,8 @@ assumptions(PROP, [
     "the spy law's functions use only + - * / sqrt, which numpy and Python evaluate identically (IEEE, no fused multiply-add)",
     "per-point look-ups use proportional loads (one load factor for all points, as the FKM detector produces them); the class is "
     "the class of the first point by documented design, and loads one ulp beside an edge are asserted only if all points agree on the class",
-    "maximum loads are positive; a point with maximum load 0 in FIRST position is finding class F07_a (predicate f07a_first_point_zero_max, "
-    "witness replays/C07/F07_a-*.json.pending) and is not generated until that finding is registered; loads that are not proportional to the "
+    "maximum loads are positive, except that one case in twelve of `per_point` puts a point with maximum load 0 in FIRST position: "
+    "finding class F07_a (predicate f07a_first_point_zero_max, witness replays/C07/F07_a-*.json), counted under `excluded`; loads that are not proportional to the "
     "per-point maxima (e.g. max [100,100], loads [50,150]: no error for 150, both get the class of 50) are outside the documented per-point use",
     "scalar look-ups are made on single-point tables, Series look-ups on single-point and per-point tables (the combinations the callers use)",
     "real laws are wrapped with parameters from the FKM estimates; their own accuracy is C06's business - here they are the reference for themselves",
@@ -547,6 +547,9 @@ def _multi_cases(draw, tier):
     fn = draw(st.sampled_from(FUNCS))
     lfs = [draw(_load_factor(spec["bins"], "secondary" in fn)) for _ in range(draw(st.integers(1, 6)))]
     k = len(spec["max"])
+    if k > 1 and draw(st.integers(0, 11)) == 0:
+        # an unloaded point (maximum load 0) in first position: finding class F07_a
+        spec["max"][0][1] = 0.0
     for lf in lfs:
         # per-point signs (mixed) and a zero load next to loaded points - never at the first point, whose load selects the class
         lf["signs"] = draw(st.lists(st.sampled_from([1.0, -1.0]), min_size=k, max_size=k)) if draw(st.booleans()) else None
